@@ -9,7 +9,7 @@ import numpy as np
 
 from . import dsl
 from .extract import NLP, declare, quiet
-from .sx2smt import SXProgram, ConstPool, Z3Domain, FloatDomain, PolyFloatDomain, HarnessError, Unsupported
+from .sx2smt import SXProgram, ConstPool, Z3Domain, RefZ3Domain, FloatDomain, PolyFloatDomain, HarnessError, Unsupported
 
 NPTS = 3   # fingerprint points
 
@@ -150,6 +150,7 @@ class Inst:
         import z3
         self.z3 = z3
         self.zdom = Z3Domain(self.pool, poly=self.poly)
+        self.rdom = RefZ3Domain(self.zdom)
         self.xv = [z3.Real('x%d' % i) for i in range(nlp.nx)]
         self.pv = [z3.Real('p%d' % i) for i in range(nlp.np)]
         self.zout = self.prog.run(self.zdom, nlp.split(self.xv, nlp.xsyms) + nlp.split(self.pv, nlp.psyms))
@@ -171,8 +172,10 @@ class Inst:
         return o[0][0], o[1], o[2], o[3], o[4:4 + nn], o[4 + nn:]
 
     def traj(self, d):
-        dom = self.zdom if d == 'z' else self.fdom
-        return self.named.traj(self.view(d)[4], dom)
+        if d == 'z':
+            vals = [[self.rdom.wrap(x) for x in v] for v in self.view(d)[4]]
+            return self.named.traj(vals, self.rdom)
+        return self.named.traj(self.view(d)[4], self.fdom)
 
     def domains(self):
         return ['z'] + list(range(NPTS))
